@@ -492,7 +492,7 @@ func containsCopy(a *Term) bool {
 	case "copyarr":
 		r = true
 	case "store":
-		r = containsCopy(a.args[0])
+		r = containsCopy(a.args[0]) || (strings.HasPrefix(a.args[2].sort, "(Array") && containsCopy(a.args[2]))
 	case "ite":
 		r = containsCopy(a.args[1]) || containsCopy(a.args[2])
 	}
